@@ -35,13 +35,13 @@ func (p c12Prov) Shutdown(context.Context) error { return nil }
 // provider table: key -> YAML text returned by provider "aa"
 var c12Table = map[string]string{
 	"K": "v", "N": "42", "B": "true", "F": "1.5", "R": "${aa:K}", "E": "a$$b", "C": "${aa:C}", "C2": "x${aa:C3}", "C3": "${aa:C2}y", "P": "K", "D": "$",
-	"M": "{m: 1, n: [1, two]}", "L": "[1, two]", "Z": "null", "RN": "${aa:N}",
+	"M": "{m: 1, n: [1, two]}", "L": "[1, two]", "Z": "null", "Z2": "~", "RN": "${aa:N}", "MR": "{m: \"${aa:N}\", l: [\"${aa:K}\"]}",
 }
 
 // what the typed value of each key must be when the reference is the whole value
 var c12Typed = map[string]any{
 	"K": "v", "N": 42, "B": true, "F": 1.5, "R": "v", "E": "a$b", "P": "K", "D": "$",
-	"M": map[string]any{"m": 1, "n": []any{1, "two"}}, "L": []any{1, "two"}, "Z": nil, "RN": 42,
+	"M": map[string]any{"m": 1, "n": []any{1, "two"}}, "L": []any{1, "two"}, "Z": nil, "Z2": nil, "RN": 42, "MR": map[string]any{"m": 42, "l": []any{"v"}},
 }
 
 func c12Resolver(sources []map[string]any, defScheme bool) (*Resolver, error) {
@@ -437,8 +437,9 @@ func c12TypedCheck(key string, def bool) (string, string) {
 		return "typed-value-mismatch", fmt.Sprintf("%s as a whole value: got %s want %s", s, norm(got), norm(want))
 	}
 	switch want.(type) {
-	case map[string]any, []any, nil:
+	case map[string]any, []any:
 	default:
+		// (null is a YAML scalar type too: "null" / "~" into a string field stay that text)
 		// scalar assigned to a string field keeps its original text
 		orig, _ := c12Ref(c12Table[key], def, map[string]bool{}, true)
 		if strErr != nil || strField != orig {
